@@ -348,7 +348,12 @@ func (svr *Server) Close() error {
 		svr.lntls.Close()
 	}
 
-	for _, svc := range svr.svcs {
+	// handleConnection appends to svcs under the mutex while we are here
+	svr.mu.Lock()
+	svcs := svr.svcs
+	svr.mu.Unlock()
+
+	for _, svc := range svcs {
 		log.Tracef("Stopping service: %d", svc.id)
 		svc.stop()
 	}
